@@ -6,13 +6,16 @@
    A case without filter is judged by the DECLARATIVE clauses of Summarize (PeriodReportClauses: the totals of the
    full ledger are computed here, by the spec, from the logged postings); a case with a filter is judged against the
    rows of the preceding unfiltered case of the same clauses (FilterOK); the error path against Rejected.
+   A NESTED case ("sub":{"on":true,"c":{..}}: ... FROM <filter> <clauses> WHERE account IN (SELECT account FROM <sub.c.filter>
+   <sub.c's clauses>)) is judged by ScopeOK against the rows of the recorded unfiltered cases of the statement's clauses
+   and of the subquery's clauses on the same ledger (each of them judged by the declarative clauses in its own line).
    One TLC step per line; a rejected line is reported and the run continues. *)
 EXTENDS Summarize, Json, IOUtils
 
 TraceLog == ndJsonDeserialize(IOEnv.TRACE_FILE)
 
-VARIABLES l, led, base, nbad
-tvars == <<vars, l, led, base, nbad>>
+VARIABLES l, led, base, bases, nbad
+tvars == <<vars, l, led, base, bases, nbad>>
 
 Pair(x) == <<x[1], x[2]>>
 Row(r) == [t |-> r.t, date |-> r.date, flag |-> r.flag, g |-> r.g, k |-> r.k, u |-> Pair(r.u), v |-> Pair(r.v),
@@ -26,16 +29,27 @@ NoBase == [c |-> [open |-> 0, close |-> -1, clear |-> FALSE, filter |-> NoFilter
 
 \* the mechanism's variables are not used here (the real code is the mechanism): parked
 Parked == /\ ledger = <<>> /\ cfg = NoBase.c /\ status = "trace" /\ pc = <<>> /\ entries = <<>> /\ report = <<>>
-TInit == Parked /\ l = 1 /\ led = NoLedger /\ base = NoBase /\ nbad = 0
+          /\ inner = NoInner /\ tab = <<>> /\ sub = NoSub
+TInit == Parked /\ l = 1 /\ led = NoLedger /\ base = NoBase /\ bases = <<>> /\ nbad = 0
 
 SameClauses(c1, c2) == c1.open = c2.open /\ c1.close = c2.close /\ c1.clear = c2.clear
 
+\* the unfiltered cases of the current ledger recorded so far, by clauses
+HasBase(c) == \E i \in 1..Len(bases) : SameClauses(bases[i].c, c)
+BaseRows(c) == bases[CHOOSE i \in 1..Len(bases) : SameClauses(bases[i].c, c)].rows
+
 \* names of the clauses a case fails (empty = accepted)
 Failed(e) ==
-    LET c == Cfg(e.c) IN
+    LET c == Cfg(e.c)
+        ci == Cfg(e.sub.c)
+        rejected == Rejected(c) \/ (e.sub.on /\ Rejected(ci))
+    IN
     IF e.err # "" THEN
-        (IF e.err = "CompilationError" /\ Rejected(c) THEN <<>> ELSE <<"err:" \o e.err>>)
-    ELSE IF Rejected(c) THEN <<"CompileOK">>
+        (IF e.err = "CompilationError" /\ rejected THEN <<>> ELSE <<"err:" \o e.err>>)
+    ELSE IF rejected THEN <<"CompileOK">>
+    ELSE IF e.sub.on THEN
+        (IF ~HasBase(c) \/ ~HasBase(ci) THEN <<"NoBaseCase">>
+         ELSE IF ScopeOK(led.kt, BaseRows(c), c.filter, BaseRows(ci), ci.filter, RowsIn(e.rows)) THEN <<>> ELSE <<"ScopeOK">>)
     ELSE IF c.filter.n = "none" THEN
         LET res == PeriodReportClauses(led.kt, led.lp, c, RowsIn(e.rows), led.exact)
         IN SelectSeq(ClauseNames, LAMBDA nm : ~res[CHOOSE i \in 1..Len(ClauseNames) : ClauseNames[i] = nm])
@@ -50,13 +64,15 @@ TNext ==
        IF e.ev = "ledger"
        THEN /\ led' = [kt |-> [i \in 1..Len(e.kt) |-> KeyRec(e.kt[i])], lp |-> RowsIn(e.lp), exact |-> e.exact]
             /\ base' = NoBase
+            /\ bases' = <<>>
             /\ UNCHANGED nbad
        ELSE LET bad == Failed(e) IN
             /\ IF bad = <<>> THEN UNCHANGED nbad
                ELSE /\ PrintT(ToJson([verdict |-> "rejected", line |-> l, id |-> e.id, failed |-> bad]))
                     /\ nbad' = nbad + 1
-            /\ base' = IF e.err = "" /\ e.c.filter.n = "none" /\ ~Rejected(Cfg(e.c))
-                       THEN [c |-> Cfg(e.c), rows |-> RowsIn(e.rows), ok |-> TRUE] ELSE base
+            /\ LET isBase == e.err = "" /\ e.c.filter.n = "none" /\ ~e.sub.on /\ ~Rejected(Cfg(e.c)) IN
+               /\ base' = IF isBase THEN [c |-> Cfg(e.c), rows |-> RowsIn(e.rows), ok |-> TRUE] ELSE base
+               /\ bases' = IF isBase /\ ~HasBase(Cfg(e.c)) THEN Append(bases, [c |-> Cfg(e.c), rows |-> RowsIn(e.rows)]) ELSE bases
             /\ UNCHANGED led
 
 TSpec == TInit /\ [][TNext]_tvars
